@@ -2,14 +2,17 @@ SPEC = dict(
     id="C02",
     bin="c02",
     coq_dir="C02",
-    coq_targets=["C02/Proofs.vo", "C02/IftProofs.vo", "C02/Examples.vo"],
-    props=["C02/Props.v", "C02/IftProps.v"],
+    coq_targets=["C02/Proofs.vo", "C02/IftProofs.vo", "C02/Examples.vo", "C02/VsProofs.vo", "C02/VsExamples.vo"],
+    props=["C02/Props.v", "C02/IftProps.v", "C02/VsProps.v"],
     allowed_axioms=[],
     harness_timeout=2400,
     level_text=("Partial by design: totality of ~45 kLoC is not a theorem here. What is proved (Coq, unbounded, no axioms) is that each "
                 "GUARD that makes skrifa's glyph loading total does its job for every input it can see, the guarded computation being an "
                 "adversarial oracle: ValueStack (all 14 operations, both pedantic modes, arbitrary closures, every capacity) never panics and "
-                "keeps 0 <= len <= capacity, and push/peek/pop/clear refine a plain list; Decycler<_,D> never indexes out of [0,D), is exactly a "
+                "keeps 0 <= len <= capacity, and EVERY method (push, push_inline_operands, peek, pop, pop_usize, pop_count_checked, apply_unary/binary, clear, dup, swap, "
+                "copy_index, move_index, roll) refines a plain-list specification with exactly the Rust error cases, whole op sequences being observationally a list machine "
+                "(copy_index/move_index: index = top cell `as usize`, Underflow with the stack unchanged for len 0, negative or >= len index, and len 1 for move_index; "
+                "index 0 = the index cell itself; neither looks at is_pedantic); Decycler<_,D> never indexes out of [0,D), is exactly a "
                 "stack of node ids with the depth cap and the depth/2 test, cuts every Enter-only descent longer than D and every eventually "
                 "periodic descent (prefix P, period L) within 2(P/L+1)L <= 2(P+L) Enters; CallStack is total with depth in [0,32]; the "
                 "interpreter run loop performs at most MAX_RUN_INSTRUCTIONS+1 dispatches for EVERY instruction oracle, never panics, keeps the "
@@ -32,12 +35,12 @@ SPEC = dict(
                 "The 200-odd opcode bodies, CFF, autohinter, metrics/charmap/string glue and the IFT client are covered by the totality search only."),
     technique="Coq proofs (invariants, refinement to list/stack specifications, fuel-adequacy) over hand-written Gallina models + vm_compute correspondence + watchdogged implementation-only fuzzing",
     modelled=["skrifa/src/decycler.rs: Decycler::{new,enter}, DecyclerGuard::drop, verif_drive_decycler",
-              "skrifa/src/outline/glyf/hint/value_stack.rs: every method of ValueStack",
+              "skrifa/src/outline/glyf/hint/value_stack.rs: every method of ValueStack (model vs_*; list-level specification spec_* in coq/C02/VsProofs.v proved equal to the model for every stack and argument)",
               "skrifa/src/outline/glyf/hint/call_stack.rs: CallStack::{push,peek,pop,clear}",
               "skrifa/src/outline/glyf/hint/engine/dispatch.rs: Engine::run (MAX_RUN_INSTRUCTIONS); engine/mod.rs: LoopBudget; engine/control_flow.rs: do_jump; engine/definition.rs: op_call/op_loopcall/op_fdef/op_endf, do_def scan; hint/program.rs: enter/leave; hint/definition.rs: DefinitionMap::{allocate,get} (concrete oracle instance used by the shards)",
               "skrifa/src/outline/glyf/mod.rs: Outlines::outline_rec / Scaler::load + load_composite recursion guard (GLYF_COMPOSITE_RECURSION_LIMIT)",
               "incremental-font-transfer/src/patchmap.rs: add_intersecting_format1_patches (intersect_format1_glyph_map_inner, intersect_format1_feature_map incl. field_width / entry_records_size / merge_intersecting_entries / is_entry_applied); decode_format2_entries, decode_format2_entry (EntryData field walk, child index / design space / id / patch format checks), compute_format2_new_entry_index, decode_format2_codepoints (sparse bit set = coq/C14 SbsModel.decode in the shards, arbitrary oracle in the theorems)"],
-    not_covered=["ValueStack::copy_index/move_index as list operations (totality proved; list-level specification only checked by correspondence)",
+    not_covered=["ValueStack: what the cells beyond `len` hold after an operation is not specified at list level (the model's whole backing store is compared with the real one by correspondence only)",
                  "work bound of composite loading: the guard bounds depth, not the number of visits (exponential in fan-out: reported finding)",
                  "TrueType opcode bodies other than control flow, zone/point/CVT index checks, CFF charstring evaluator and hinter, autohinter, COLR traversal, metrics/charmap/string glue: totality search only",
                  "memory carving alloc_slice (proved by C12): exhaustive buffer length x misalignment sweep only; IFT glyph-keyed / table-keyed patch application (C18), format-2 string ids, EntryIntersectionCache recursion (finding: unbounded), patch selection (C19): totality search only",
